@@ -138,7 +138,10 @@ fn run_lazy(ops: &[MOp], expect: &[bool]) -> Vec<Fail> {
             }
         }
     }
-    let got = final_matrix(&eg, &handles);
+    // only the invocations returned for the user's terms are compared across the two runs: identity invocations carry
+    // internal slot names, whose numbering differs between the runs (the monitor itself draws fresh slots)
+    let user_handles: Vec<AppliedId> = rec.iter().map(|(_, a)| a.clone()).collect();
+    let got = final_matrix(&eg, &user_handles);
     if got.len() == expect.len() && got != expect {
         let k = got.iter().zip(expect.iter()).position(|(a, b)| a != b).unwrap();
         fails.push(("equality-lost".into(), "the equalities among the handles differ between the monitored and the unobserved run of the same history".into(), format!("pair #{k}: unobserved {} vs monitored {} at the end of [{seq}]", got[k], expect[k])));
@@ -319,7 +322,8 @@ fn run(ops: &[MOp]) -> (Vec<Fail>, u64, u64, Vec<u64>, u64, Vec<bool>) {
         }
         fps.push(fnv_str(&format!("{now:?}|{}|{}", eg.total_number_of_nodes(), equal_pairs.len())));
     }
-    let fm = final_matrix(&eg, &handles);
+    let user_handles: Vec<AppliedId> = rec.iter().map(|(_, a)| a.clone()).collect();
+    let fm = final_matrix(&eg, &user_handles);
     (fails, evals, goals, fps, ops.len() as u64, fm)
 }
 
@@ -340,7 +344,7 @@ impl Prop for MonoProp {
         vec!["class_merged", "slot_became_redundant", "handle_of_dead_class_used", "handle_slot_set_shrank", "equal_pair_recorded", "symmetric_pair_recorded"]
     }
     fn rule(&self) -> String {
-        "Every sequence (ordered) of the stated length over union/insert operations of the alphabet plus four rewrite-iteration operations (b-comm, u-elim, f-comm+u-intro, repeated-slot patterns, via apply_rewrites) is executed step by step in one e-graph. After EVERY step the monitor re-checks everything recorded at earlier steps: every invocation ever returned (and the identity invocation of every class that was ever live) can be canonicalised idempotently, is equal to itself, canonicalises to a live class, can be extracted from (and the extracted term looks up to it), its slot set only shrinks; every pair that once compared equal (also up to swapping two slots) still does; the ProgressMeasure moves lexicographically in the documented direction. The same history is then executed a second time WITHOUT any query between the operations (queries compress the union-find): at the end every handle must canonicalise idempotently to a live class and the equalities among all handles must be those of the monitored run. Non-trivial = step count of executions that completed.".into()
+        "Every sequence (ordered) of the stated length over union/insert operations of the alphabet plus four rewrite-iteration operations (b-comm, u-elim, f-comm+u-intro, repeated-slot patterns, via apply_rewrites) is executed step by step in one e-graph. After EVERY step the monitor re-checks everything recorded at earlier steps: every invocation ever returned (and the identity invocation of every class that was ever live) can be canonicalised idempotently, is equal to itself, canonicalises to a live class, can be extracted from (and the extracted term looks up to it), its slot set only shrinks; every pair that once compared equal (also up to swapping two slots) still does; the ProgressMeasure moves lexicographically in the documented direction. The same history is then executed a second time WITHOUT any query between the operations (queries compress the union-find): at the end every handle must canonicalise idempotently to a live class and the equalities among the invocations returned for the user's terms must be those of the monitored run. Non-trivial = step count of executions that completed.".into()
     }
     fn assumptions(&self) -> Vec<String> {
         vec!["at most 40 handles are tracked per execution".into()]
